@@ -345,7 +345,8 @@ def shard(a):
     core.drive(prop, strat, a['n'], (a['seed'], 'C09', rel, src), res, shrink_skip=a['known'])
     if kind in ('es.nif', 'union', 'thin'):
         # every letter at every letter position of a few valid constituent numbers (per-letter branches of the wrapper)
-        for w in gen.class_sweep(src, nbase=3):
+        # ... and every two-digit field value (month offsets of be.bis, type digits), edge characters, table bounds
+        for w in gen.class_sweep(src, nbase=3) + gen.pair_pool(src, nbase=2) + gen.edge_pool(src) + gen.boundary_pool(src):
             prop({'rel': rel, 'x': w}, res)
     res.notes['cases_per_relation_source'] = {'%s<-%s' % (rel, src): res.evals}
     return res
